@@ -34,7 +34,7 @@ CONSTANTS
   HonourBlacklist,      \* TRUE = generateKeys as the code has it; FALSE = what-if (mutant)
   ReserveZero,          \* TRUE = dispatcher keys are Perm(n)+1 as the code has it; FALSE = what-if (mutant)
   SplitFixesPreds,      \* TRUE = applySplitting rewrites succ.Preds as the code has it; FALSE = what-if (mutant)
-  FuelOnePass, FuelTwoPass,  \* interpreter step bounds (blocks executed) after one / two flattening passes
+  MaxFuel,              \* size of the last fuel chunk of the interpreters (blocks executed)
   KMax,                 \* hardening keys are drawn from 0..KMax
   LeadsFile             \* where the shape table / predictions are serialised ("" = do not)
 
@@ -96,20 +96,18 @@ Id(sh) == sh.fam \o "-" \o sh.ex \o "-" \o sh.ey \o "-" \o sh.ret
 ShapeOf(id) == CHOOSE sh \in AllShapes : Id(sh) = id
 ShapeIds == {Id(sh) : sh \in AllShapes}
 
-(* go/ssa removes the trivial phi x = phi(a, x): x is then the parameter.     *)
-LX(sh) == IF sh.ex = "x" THEN V("a") ELSE V("x")
-LY(sh) == IF sh.ey = "y" THEN V("b") ELSE V("y")
-LVal(sh, w) == CASE w = "x" -> LX(sh) [] w = "y" -> LY(sh) [] w = "t" -> V("t")
-LoopPhis(sh) ==
-     (IF sh.ex = "x" THEN <<>> ELSE <<Phi("x", <<V("a"), LVal(sh, sh.ex)>>)>>)
-  \o (IF sh.ey = "y" THEN <<>> ELSE <<Phi("y", <<V("b"), LVal(sh, sh.ey)>>)>>)
-  \o <<Phi("i", <<C(0), V("i1")>>)>>
+(* go/ssa keeps the trivial phi x = phi(a, x) of a variable that is assigned to itself. *)
+LX(sh) == V("x")
+LY(sh) == V("y")
+LVal(sh, w) == CASE w = "x" -> V("x") [] w = "y" -> V("y") [] w = "t" -> V("t")
+LoopPhis(sh) == <<Phi("x", <<V("a"), LVal(sh, sh.ex)>>), Phi("y", <<V("b"), LVal(sh, sh.ey)>>), Phi("i", <<C(0), V("i1")>>)>>
 
-(* for i := 0; i < n; i++ { t := x + y; emit(t); x, y = EX, EY }; return RET  *)
+(* for i := 0; i < n; i++ { t := x + y; emit(t); u := t + i; emit(u); x, y = EX, EY }; return RET *)
 WhileCfg(sh) ==
   << OBlk(<<>>, <<>>, Jump, <<2>>, <<>>),
      OBlk(LoopPhis(sh), <<Op("c", "lt", V("i"), V("n"))>>, If(V("c")), <<3, 4>>, <<1, 3>>),
-     OBlk(<<>>, <<Op("t", "add", LX(sh), LY(sh)), Emit(V("t")), Op("i1", "add", V("i"), C(1))>>, Jump, <<2>>, <<2>>),
+     OBlk(<<>>, <<Op("t", "add", LX(sh), LY(sh)), Emit(V("t")), Op("u", "add", V("t"), V("i")), Emit(V("u")),
+                  Op("i1", "add", V("i"), C(1))>>, Jump, <<2>>, <<2>>),
      OBlk(<<>>, <<>>, Ret(LVal(sh, sh.ret)), <<>>, <<2>>) >>
 
 (* for { t := x + y; emit(t); r = RET; x, y = EX, EY; i++; if i >= n { break } }; return r *)
@@ -130,16 +128,16 @@ IfMergeCfg(sh) ==
         OBlk(<<>>, <<Op("v", "add", V("b"), C(2))>>, Jump, <<3>>, <<1>>) >>
 
 (* for i := 0; i < n; i++ { if x < y { x = x + y } else { y = y + 1 }; emit(x) }; return x + y *)
-LoopIfCfg ==
+LoopIfCfg ==     \* block order as go/ssa numbers them: entry, for.loop, for.body, for.done, if.then, if.done, if.else
   << OBlk(<<>>, <<>>, Jump, <<2>>, <<>>),
      OBlk(<<Phi("x", <<V("a"), V("x2")>>), Phi("y", <<V("b"), V("y2")>>), Phi("i", <<C(0), V("i1")>>)>>,
-          <<Op("c", "lt", V("i"), V("n"))>>, If(V("c")), <<3, 7>>, <<1, 5>>),
-     OBlk(<<>>, <<Op("c2", "lt", V("x"), V("y"))>>, If(V("c2")), <<4, 6>>, <<2>>),
-     OBlk(<<>>, <<Op("x1", "add", V("x"), V("y"))>>, Jump, <<5>>, <<3>>),
+          <<Op("c", "lt", V("i"), V("n"))>>, If(V("c")), <<3, 4>>, <<1, 6>>),
+     OBlk(<<>>, <<Op("c2", "lt", V("x"), V("y"))>>, If(V("c2")), <<5, 7>>, <<2>>),
+     OBlk(<<>>, <<Op("r", "add", V("x"), V("y"))>>, Ret(V("r")), <<>>, <<2>>),
+     OBlk(<<>>, <<Op("x1", "add", V("x"), V("y"))>>, Jump, <<6>>, <<3>>),
      OBlk(<<Phi("x2", <<V("x1"), V("x")>>), Phi("y2", <<V("y"), V("y1")>>)>>,
-          <<Emit(V("x2")), Op("i1", "add", V("i"), C(1))>>, Jump, <<2>>, <<4, 6>>),
-     OBlk(<<>>, <<Op("y1", "add", V("y"), C(1))>>, Jump, <<5>>, <<3>>),
-     OBlk(<<>>, <<Op("r", "add", V("x"), V("y"))>>, Ret(V("r")), <<>>, <<2>>) >>
+          <<Emit(V("x2")), Op("i1", "add", V("i"), C(1))>>, Jump, <<2>>, <<5, 7>>),
+     OBlk(<<>>, <<Op("y1", "add", V("y"), C(1))>>, Jump, <<6>>, <<3>>) >>
 
 (* x := a; for i := 0; i < n; i++ { x = x + b; emit(x); if x > 4 { break } }; return x *)
 LoopBreakCfg ==
@@ -187,8 +185,13 @@ Res(st, tr, ret) == [st |-> st, tr |-> tr, ret |-> ret]
    operators are lazy thunks that chain through the recursion, which makes a run quadratic in its length.
    (2) LET-bound and argument expressions are re-evaluated on use; binding them through a set
    ({... : x \in {e}}) forces a single evaluation. *)
-FuelFor(gg) == IF Len(gg) <= 12 THEN 80 ELSE IF Len(gg) <= 70 THEN FuelOnePass ELSE FuelTwoPass
-FuelSeq(gg) == [i \in 1..FuelFor(gg) |-> i]
+(* (3) The fold cannot stop early, so fuel is handed out in growing chunks until the run has halted. *)
+Chunks == <<40, 120, 480, 1920, MaxFuel>>
+ChunkSeq(c) == [i \in 1..Chunks[c] |-> i]
+RECURSIVE RunChunks(_, _, _)
+RunChunks(step(_), s, c) ==
+  LET s2 == FoldLeft(LAMBDA a, i : step(a), s, ChunkSeq(c))
+  IN IF s2.st # "run" \/ c = Len(Chunks) THEN s2 ELSE RunChunks(step, s2, c + 1)
 St0(env) == [b |-> 1, p |-> 0, env |-> env, tr |-> <<>>, st |-> "run", ret |-> 0]
 Fin(s) == Res(IF s.st = "run" THEN "fuel" ELSE s.st, s.tr, s.ret)
 
@@ -210,7 +213,7 @@ SsaStep(gg, s) ==
   IN CASE blk.exit.k = "ret"  -> [s EXCEPT !.st = "ret", !.tr = r.tr, !.ret = Eval(blk.exit.a, r.env)]
        [] blk.exit.k = "jump" -> nxt(blk.succs[1])
        [] blk.exit.k = "if"   -> nxt(IF Eval(blk.exit.a, r.env) # 0 THEN blk.succs[1] ELSE blk.succs[2])
-SsaAll(gg) == CHOOSE r \in {[k \in 1..4 |-> Fin(FoldLeft(LAMBDA s, i : SsaStep(x, s), St0(Env0(x, InputSeq[k], <<>>)), FuelSeq(x)))]
+SsaAll(gg) == CHOOSE r \in {[k \in 1..4 |-> Fin(RunChunks(LAMBDA s : SsaStep(x, s), St0(Env0(x, InputSeq[k], <<>>)), 1))]
                               : x \in {gg}} : TRUE
 
 (* Lowering: the assignments that end up in block b (AstBlock.Phi), in the    *)
@@ -248,26 +251,24 @@ LowStep(gg, pa, mode, s) ==
           [] blk.exit.k = "jump" -> nxt(blk.succs[1])
           [] blk.exit.k = "if"   -> nxt(IF Eval(blk.exit.a, env2) # 0 THEN blk.succs[1] ELSE blk.succs[2])
 LowAll(gg, pp, mode) ==
-  CHOOSE r \in {[k \in 1..4 |-> Fin(FoldLeft(LAMBDA s, i : LowStep(x[1], x[2], mode, s), St0(Env0(x[1], InputSeq[k], pp)), FuelSeq(x[1])))]
+  CHOOSE r \in {[k \in 1..4 |-> Fin(RunChunks(LAMBDA s : LowStep(x[1], x[2], mode, s), St0(Env0(x[1], InputSeq[k], pp)), 1))]
                   : x \in {<<gg, PhiAssigns(gg)>>}} : TRUE
 
 -----------------------------------------------------------------------------
 (* Predictions for the untransformed shapes (constant level, cached by TLC)   *)
 
-RefTable    == [id \in ShapeIds |-> SsaAll(Cfg0(id))]
-LowTable    == [id \in ShapeIds |-> LowAll(Cfg0(id), <<>>, "seq")]
-LowParTable == [id \in ShapeIds |-> LowAll(Cfg0(id), <<>>, "par")]
+Cause(ref, low, par) == IF low = ref THEN "none"
+                        ELSE IF par = ref THEN "sequential"   \* F4: phis of one block assigned one after the other
+                        ELSE IF par = low THEN "lost-copy"    \* F3: assignment before the branch of a pred with another successor
+                        ELSE "both"
+Predict(id) == LET p == CHOOSE q \in {[ref |-> SsaAll(x), low |-> LowAll(x, <<>>, "seq"), par |-> LowAll(x, <<>>, "par")] : x \in {Cfg0(id)}} : TRUE
+               IN [ref |-> p.ref, low |-> p.low, cause |-> Cause(p.ref, p.low, p.par)]
 
-(* Shapes that the lowering, as the code has it, miscompiles; with the cause. *)
-BadShapes == {id \in ShapeIds : LowTable[id] # RefTable[id]}
-Cause(id) == IF LowTable[id] = RefTable[id] THEN "none"
-             ELSE IF LowParTable[id] = RefTable[id] THEN "sequential"   \* F4: phis of one block assigned one after the other
-             ELSE IF LowParTable[id] = LowTable[id] THEN "lost-copy"    \* F3: assignment before the branch of a pred with another successor
-             ELSE "both"
-
-Leads == [id \in ShapeIds |->
-            [shape |-> ShapeOf(id), skeleton |-> Skeleton(Cfg0(id)), cause |-> Cause(id),
-             ssa |-> RefTable[id], low |-> LowTable[id], inputs |-> InputSeq]]
+(* the table of all shapes with TLC's predictions: the leads replayed on the real code *)
+LeadShapes == IF LeadsFile = "" THEN {} ELSE ShapeIds
+Leads == [id \in LeadShapes |-> LET p == Predict(id) IN
+            [shape |-> ShapeOf(id), skeleton |-> Skeleton(Cfg0(id)), cause |-> p.cause,
+             ssa |-> p.ref, low |-> p.low, inputs |-> InputSeq]]
 ASSUME LeadsFile = "" \/ JsonSerialize(LeadsFile, Leads)
 
 -----------------------------------------------------------------------------
@@ -300,8 +301,9 @@ TrashGuardOK == \A v1, v2 \in 0..3 : FalseOps(v1, v2) # {}
 (* Transformations                                                            *)
 
 VARIABLES sid, g, stage, cnt, pro, status, lastDisp,
-          runs    \* the lowered function's behaviour on every input, recomputed by every action
-vars == <<sid, g, stage, cnt, pro, status, lastDisp, runs>>
+          runs,   \* the lowered function's behaviour on every input, recomputed by every action
+          exp     \* Predict(sid): SSA semantics of the source, behaviour of the plain lowering, cause of a difference
+vars == <<sid, g, stage, cnt, pro, status, lastDisp, runs, exp>>
 
 RunsOf(gg, pp) == LowAll(gg, pp, "seq")
 
@@ -327,7 +329,7 @@ Trash(b, si) ==
         /\ g' = TrashOn(b, si, c[1], c[2], c[3])
   /\ runs' = RunsOf(g', pro)
   /\ cnt' = [cnt EXCEPT !.trash = @ + 1]
-  /\ UNCHANGED <<sid, stage, pro, status, lastDisp>>
+  /\ UNCHANGED <<sid, stage, pro, status, lastDisp, exp>>
 
 (* applySplitting: the first largest block is cut at splitIdx in 1..len-2 (0-based instruction index);
    the second part becomes a new block appended to the list; Preds of the DIRECT successors that name
@@ -359,7 +361,7 @@ Split(idx) ==
        /\ status' = IF Lowerable(g2) THEN status ELSE "rejected"   \* split inside a phi group: panic in convertBlock (F10)
        /\ runs' = IF Lowerable(g2) THEN RunsOf(g2, pro) ELSE runs
   /\ cnt' = [cnt EXCEPT !.split = @ + 1]
-  /\ UNCHANGED <<sid, stage, pro, lastDisp>>
+  /\ UNCHANGED <<sid, stage, pro, lastDisp, exp>>
 
 (* addJunkBlocks, one iteration: a block holding only a jump is put on edge (b, si) *)
 Junk(b, si) ==
@@ -369,7 +371,7 @@ Junk(b, si) ==
      IN g' = [g EXCEPT ![b].succs[si] = n + 1] \o <<fake>>
   /\ runs' = RunsOf(g', pro)
   /\ cnt' = [cnt EXCEPT !.junk = @ + 1]
-  /\ UNCHANGED <<sid, stage, pro, status, lastDisp>>
+  /\ UNCHANGED <<sid, stage, pro, status, lastDisp, exp>>
 
 (* applyFlattening *)
 PermOf(kind, m) == CASE kind = "id"  -> [i \in 1..m |-> i]
@@ -420,7 +422,7 @@ Flatten(pk, sk) ==
   /\ LET f == FlattenCfg(g, pk, sk, cnt.pass + 1) IN g' = f.cfg /\ lastDisp' = f.disp
   /\ runs' = RunsOf(g', pro)
   /\ cnt' = [cnt EXCEPT !.pass = @ + 1]
-  /\ UNCHANGED <<sid, stage, pro, status>>
+  /\ UNCHANGED <<sid, stage, pro, status, exp>>
 
 (* hardening: every dispatcher's constants are replaced through SsaValueRemap at conversion time *)
 RepKeys(m, bl, up) ==      \* one representative result of generateKeys
@@ -457,14 +459,15 @@ Harden(kind, gk, up) ==
             /\ pro' = IF kind = "xor" THEN [v \in {"lk" \o ToString(p) : p \in 1..cnt.pass} |-> gk] ELSE pro
   /\ runs' = RunsOf(g', pro')
   /\ stage' = "done"
-  /\ UNCHANGED <<sid, cnt, status, lastDisp>>
+  /\ UNCHANGED <<sid, cnt, status, lastDisp, exp>>
 
-Advance(from, to) == stage = from /\ stage' = to /\ UNCHANGED <<sid, g, cnt, pro, status, lastDisp, runs>>
+Advance(from, to) == stage = from /\ stage' = to /\ UNCHANGED <<sid, g, cnt, pro, status, lastDisp, runs, exp>>
 
 Init == /\ sid \in XShapes /\ g = Cfg0(sid) /\ stage = "trash"
         /\ cnt = [trash |-> 0, split |-> 0, junk |-> 0, pass |-> 0]
         /\ pro = <<>> /\ status = "ok" /\ lastDisp = NoDisp
         /\ runs = RunsOf(g, pro)
+        /\ exp = Predict(sid)
 
 Next == /\ status = "ok"
         /\ \/ \E b \in Candidates : \E si \in 1..Len(g[b].succs) : Trash(b, si)
@@ -485,9 +488,9 @@ Spec == Init /\ [][Next]_vars
 Runs == runs
 
 (* the transformations never change what the lowered function does *)
-SameAsLowered == status = "ok" => Runs = LowTable[sid]
+SameAsLowered == status = "ok" => Runs = exp.low
 (* ... and, for the shapes the plain lowering gets right, the result is the SSA semantics of the source *)
-SameTrace == (status = "ok" /\ sid \notin BadShapes) => Runs = RefTable[sid]
+SameTrace == (status = "ok" /\ exp.cause = "none") => Runs = exp.ref
 TrashNeverRuns == status = "ok" => \A k \in 1..4 : Runs[k].st # "trash"
 (* junk blocks are pure forwarders (they do run, but cannot be observed) and trash blocks are only
    entered through their guard *)
